@@ -268,14 +268,9 @@ impl<'a> TimeZoneRef<'a> {
                     }
                     Ordering::Equal => {
                         // should this ever happen? presumably we have to handle it anyway.
+                        // the offset does not change: no local time is skipped or repeated.
                         if local_leap_time < transition_start {
                             return Ok(crate::MappedLocalTime::Single(prev));
-                        } else if local_leap_time == transition_end {
-                            if prev.ut_offset < after_ltt.ut_offset {
-                                return Ok(crate::MappedLocalTime::Ambiguous(prev, after_ltt));
-                            } else {
-                                return Ok(crate::MappedLocalTime::Ambiguous(after_ltt, prev));
-                            }
                         }
                     }
                     Ordering::Less => {
